@@ -7,7 +7,19 @@ from ..adapters import split as ad
 MODULE = "Split"
 
 
+def lemmas(ctx):
+    """Thorough tier: the arithmetic lemmas that extrapolate the bounded model to all sizes, by Apalache (unbounded Int)."""
+    if ctx.quick():
+        return
+    status, wall = tlc.apalache_lemmas(ctx.outdir)
+    ctx.notes["apalache_ArithLemmas"] = {"status": status, "wall_s": round(wall, 1),
+                                         "lemmas": ["SubblockPlan", "PaddingRule", "PieceCount"]}
+    if status == "counterexample":
+        ctx.violation("ArithLemmas", "apalache:counterexample", {"action": "Lemmas"}, {"see": "apalache-mc check --inv=Lemmas --length=0 ArithLemmas.tla"})
+
+
 def run(ctx):
+    lemmas(ctx)
     ctx.notes["rule"] = ("band jobs (nchans, fchans, shift, leading integrations, orientation) and array jobs (shape, tile sizes, "
                          "shifts, trim flags) from Split.tla; band jobs on 6 (df, f0) geometries written as real .fil files with "
                          "pixel identities; distinct = distinct (job, geometry)")
